@@ -125,12 +125,26 @@ func runC16(c *vf.Case) {
 	var parkedErr error
 	overlaps, syncBlocks := 0, 0
 	setPayloadTwice := 0
+	leftoverPending, leftoverNew, leftovers := false, false, 0
 	secondIssued, secondCalls := false, 0
 	var secondErr error
 	thirdIssued, thirdCalls := false, 0
 	var thirdErr error
 	steps := r.Range(1, 40)
 	for step := 0; step < steps && !c.Failed() && !closed; step++ {
+		k := r.Intn(12)
+		if leftoverPending && (k == 5 || (k > 8 && k <= 10) || r.Chance(1, 3)) {
+			// the remainder of the interrupted frame is flushed explicitly (always before a step that writes nothing itself)
+			for tries := 0; tries < 4; tries++ {
+				if ferr := s.Flush(); !errors.Is(ferr, sonicerrors.ErrWouldBlock) {
+					break
+				}
+			}
+			leftoverPending = false
+			if !verify(fmt.Sprintf("explicit flush before step %d", step)) {
+				return
+			}
+		}
 		async := r.Bool()
 		hold := async && r.Chance(1, 5)
 		if hold {
@@ -147,6 +161,16 @@ func runC16(c *vf.Case) {
 		}
 		finish := func(what string) bool {
 			if !async {
+				if errors.Is(err, sonicerrors.ErrWouldBlock) && r.Bool() {
+					// the caller does not retry at once: the rest of the frame stays in the stream's write buffer until
+					// the next write-type call (blocking or asynchronous) or Flush sends it, ahead of whatever comes next
+					c.Logf("  (synchronous call hit would-block after %d wire bytes; the remainder is left for the next call)", len(t.Written))
+					t.WriteBlockAt = -1
+					leftoverPending, leftoverNew = true, true
+					leftovers++
+					err = nil
+					return true
+				}
 				for tries := 0; tries < 4 && errors.Is(err, sonicerrors.ErrWouldBlock); tries++ {
 					c.Logf("  (synchronous call hit would-block after %d wire bytes; Flush again)", len(t.Written))
 					err = s.Flush()
@@ -246,7 +270,7 @@ func runC16(c *vf.Case) {
 			}
 			return true
 		}
-		switch k := r.Intn(12); {
+		switch {
 		case k <= 4: // application message
 			n := c16Size(r, max)
 			text := r.Bool()
@@ -404,12 +428,30 @@ func runC16(c *vf.Case) {
 			closed = true
 			shape.WriteString("c")
 		}
+		if leftoverPending && !leftoverNew {
+			leftoverPending = false // the write-type call of this step sent the remainder first
+		}
+		leftoverNew = false
+		if leftoverPending {
+			continue // left in this very step: judged after the next call
+		}
 		if !verify(fmt.Sprintf("step %d", step)) {
+			return
+		}
+	}
+	if leftoverPending && !c.Failed() {
+		for tries := 0; tries < 4; tries++ {
+			if ferr := s.Flush(); !errors.Is(ferr, sonicerrors.ErrWouldBlock) {
+				break
+			}
+		}
+		if !verify("final flush of a remainder") {
 			return
 		}
 	}
 	c.Count("pool_reuses_longer_then_shorter", poolReuseLongShort)
 	c.Count("caller_built_frames_with_setpayload_called_twice", setPayloadTwice)
+	c.Count("remainders_left_in_the_write_buffer_for_the_next_call", leftovers)
 	c.Count("payloadless_caller_frames", payloadless)
 	c.Count("writes_with_transport_temporarily_unwritable", partial)
 	c.Count("refused_oversize_writes", refused)
